@@ -6,6 +6,13 @@
 //	        point with the specification's successor; differing cases are written as a trace
 //	        (New/Rec/Col lines) for TLC to judge against the contract
 //	c07 random -n N -trace T -res R                         seeded random scenarios -> trace for TLC
+//	c07 worlds -n N -trace T -res R -worlds W               seeded collection histories with re-used
+//	        destinations (several readers / instruments / meters / attribute sets, see world.go)
+//
+// Every collection writes into a destination whose previous content is part of the scenario
+// (specs/Histogram/HistOutput.tla: the reported point must not depend on it): fresh, the
+// runner's own previous output, or the output of a donor provider (same aggregation kind with
+// more / fewer / other-sign / emptied buckets, another kind, the other number type).
 //
 // Go only executes and projects: concrete float64/int64 measurements are abstracted to
 // (sign, exact scale-20 bucket index, alternative index near an irrational boundary, rank,
@@ -17,6 +24,7 @@ import (
 	"encoding/json"
 	"flag"
 	"fmt"
+	"hash/fnv"
 	"math"
 	"math/big"
 	"math/rand"
@@ -24,6 +32,7 @@ import (
 	"sort"
 
 	"go.opentelemetry.io/otel"
+	"go.opentelemetry.io/otel/attribute"
 	"go.opentelemetry.io/otel/metric"
 	sdkmetric "go.opentelemetry.io/otel/sdk/metric"
 	"go.opentelemetry.io/otel/sdk/metric/metricdata"
@@ -126,13 +135,15 @@ type Cfg struct {
 	Cum      bool   `json:"cum"`
 	Quant    bool   `json:"quant"`
 	Bounds   []int  `json:"bounds"` // ranks of the boundaries
+	NoSum    bool   `json:"nosum"`    // the stream collects no sum (UpDownCounter / Gauge instrument)
+	NoMinMax bool   `json:"nominmax"` // Aggregation...{NoMinMax: true}
 
 	IsInt   bool      `json:"-"`
 	FBounds []float64 `json:"-"` // concrete boundaries as configured (possibly unsorted? no: as given)
 	QExp    int       `json:"-"` // float quantum 2^QExp
 	QInt    int64     `json:"-"` // int quantum
-	ReuseRM bool      `json:"-"`
 	Class   string    `json:"-"`
+	Gauge   bool      `json:"-"` // NoSum through a Gauge instead of an UpDownCounter
 }
 
 type errCounter struct{ n int }
@@ -145,10 +156,49 @@ type Runner struct {
 	cfg    *Cfg
 	reader *sdkmetric.ManualReader
 	mp     *sdkmetric.MeterProvider
-	fh     metric.Float64Histogram
-	ih     metric.Int64Histogram
+	recF   func(context.Context, float64)
+	recI   func(context.Context, int64)
 	rm     metricdata.ResourceMetrics
+	ncol   int
 	ctx    context.Context
+}
+
+func aggOf(c *Cfg) sdkmetric.Aggregation {
+	if c.Kind == "expo" {
+		return sdkmetric.AggregationBase2ExponentialHistogram{MaxSize: int32(c.MaxSize), MaxScale: int32(c.MaxScale), NoMinMax: c.NoMinMax}
+	}
+	return sdkmetric.AggregationExplicitBucketHistogram{Boundaries: c.FBounds, NoMinMax: c.NoMinMax}
+}
+
+// instrumentFor creates the synchronous instrument of a stream: a histogram, or (streams that
+// collect no sum) an up-down counter / gauge aggregated as a histogram by the view.
+func instrumentFor(m metric.Meter, name string, isInt, noSum, gauge bool) (func(context.Context, float64), func(context.Context, int64)) {
+	switch {
+	case !noSum && isInt:
+		h, err := m.Int64Histogram(name)
+		vh.Must(err)
+		return nil, func(ctx context.Context, v int64) { h.Record(ctx, v) }
+	case !noSum:
+		h, err := m.Float64Histogram(name)
+		vh.Must(err)
+		return func(ctx context.Context, v float64) { h.Record(ctx, v) }, nil
+	case gauge && isInt:
+		h, err := m.Int64Gauge(name)
+		vh.Must(err)
+		return nil, func(ctx context.Context, v int64) { h.Record(ctx, v) }
+	case gauge:
+		h, err := m.Float64Gauge(name)
+		vh.Must(err)
+		return func(ctx context.Context, v float64) { h.Record(ctx, v) }, nil
+	case isInt:
+		h, err := m.Int64UpDownCounter(name)
+		vh.Must(err)
+		return nil, func(ctx context.Context, v int64) { h.Add(ctx, v) }
+	default:
+		h, err := m.Float64UpDownCounter(name)
+		vh.Must(err)
+		return func(ctx context.Context, v float64) { h.Add(ctx, v) }, nil
+	}
 }
 
 func newRunner(c *Cfg) *Runner {
@@ -159,42 +209,21 @@ func newRunner(c *Cfg) *Runner {
 	r := &Runner{cfg: c, ctx: context.Background()}
 	r.reader = sdkmetric.NewManualReader(sdkmetric.WithTemporalitySelector(
 		func(sdkmetric.InstrumentKind) metricdata.Temporality { return temp }))
-	var agg sdkmetric.Aggregation
-	if c.Kind == "expo" {
-		agg = sdkmetric.AggregationBase2ExponentialHistogram{MaxSize: int32(c.MaxSize), MaxScale: int32(c.MaxScale)}
-	} else {
-		agg = sdkmetric.AggregationExplicitBucketHistogram{Boundaries: c.FBounds}
-	}
-	view := sdkmetric.NewView(sdkmetric.Instrument{Name: "h"}, sdkmetric.Stream{Aggregation: agg})
+	view := sdkmetric.NewView(sdkmetric.Instrument{Name: "h"}, sdkmetric.Stream{Aggregation: aggOf(c)})
 	r.mp = sdkmetric.NewMeterProvider(sdkmetric.WithReader(r.reader), sdkmetric.WithView(view))
-	m := r.mp.Meter("c07")
-	var err error
-	if c.IsInt {
-		r.ih, err = m.Int64Histogram("h")
-	} else {
-		r.fh, err = m.Float64Histogram("h")
-	}
-	vh.Must(err)
+	r.recF, r.recI = instrumentFor(r.mp.Meter("c07"), "h", c.IsInt, c.NoSum, c.Gauge)
 	return r
 }
 
 func (r *Runner) record(m Meas) {
 	if r.cfg.IsInt {
-		r.ih.Record(r.ctx, m.I)
+		r.recI(r.ctx, m.I)
 	} else {
-		r.fh.Record(r.ctx, m.F)
+		r.recF(r.ctx, m.F)
 	}
 }
 
-// collect returns the aggregation of instrument "h" (nil if nothing was reported) and a shape note.
-func (r *Runner) collect() (metricdata.Aggregation, string) {
-	rm := &r.rm
-	if !r.cfg.ReuseRM {
-		rm = &metricdata.ResourceMetrics{}
-	}
-	if err := r.reader.Collect(r.ctx, rm); err != nil {
-		return nil, "collect error: " + err.Error()
-	}
+func onlyAggregation(rm *metricdata.ResourceMetrics) (metricdata.Aggregation, string) {
 	var found metricdata.Aggregation
 	n := 0
 	for _, sm := range rm.ScopeMetrics {
@@ -207,6 +236,164 @@ func (r *Runner) collect() (metricdata.Aggregation, string) {
 		return found, fmt.Sprintf("%d metrics", n)
 	}
 	return found, "ok"
+}
+
+// collect collects into a destination of class d (HistOutput!ODestClasses): "fresh" memory, the
+// runner's "own" previous destination as it is, or the output a donor provider left in the
+// destination ("same": same aggregation kind and number type, other bucket layout; "other":
+// another aggregation kind or number type). It returns the aggregation of instrument "h" (nil
+// if nothing was reported), a shape note, and the description of what the destination held.
+func (r *Runner) collect(d string) (metricdata.Aggregation, string, string) {
+	r.ncol++
+	desc := d
+	switch d {
+	case "own":
+	case "same", "other":
+		var rm *metricdata.ResourceMetrics
+		rm, desc = donate(r.cfg, d, int(vh.Seed())+r.ncol*7+len(r.cfg.FBounds)+r.cfg.MaxSize)
+		r.rm = *rm
+	default:
+		r.rm = metricdata.ResourceMetrics{}
+	}
+	counters.Count("dest_"+desc, 1)
+	if err := r.reader.Collect(r.ctx, &r.rm); err != nil {
+		return nil, "collect error: " + err.Error(), desc
+	}
+	agg, shape := onlyAggregation(&r.rm)
+	return agg, shape, desc
+}
+
+// ---------------------------------------------------------------- donors (previous occupants of a destination)
+
+var donorAttr = [2]metric.MeasurementOption{
+	metric.WithAttributes(attribute.Int("d", 0)), metric.WithAttributes(attribute.Int("d", 1)),
+}
+
+// donate returns a ResourceMetrics whose first slot was last written by ANOTHER provider (real
+// SDK output, never hand-made memory): the concrete counterpart of HistOutput!OPrevH / OPrevE.
+func donate(target *Cfg, class string, pick int) (*metricdata.ResourceMetrics, string) {
+	ctx := context.Background()
+	kind, isInt := target.Kind, target.IsInt
+	shape := ""
+	if class == "other" {
+		switch pick % 4 {
+		case 0:
+			kind = map[string]string{"expo": "expl", "expl": "expo"}[kind]
+			shape = "other:kind"
+		case 1:
+			isInt = !isInt
+			shape = "other:num"
+		case 2:
+			kind, shape = "sum", "other:sum"
+		default:
+			kind, shape = "gauge", "other:gauge"
+		}
+	}
+	var sub int
+	if class == "same" {
+		if kind == "expo" {
+			sub = pick % 6
+			shape = "same:" + [...]string{"more", "fewer", "neg-only", "pos-only", "emptied", "one-each"}[sub]
+		} else {
+			sub = pick % 3
+			shape = "same:" + [...]string{"more", "fewer", "many"}[sub]
+		}
+	}
+	delta := shape == "same:emptied"
+	temp := metricdata.CumulativeTemporality
+	if delta {
+		temp = metricdata.DeltaTemporality
+	}
+	reader := sdkmetric.NewManualReader(sdkmetric.WithTemporalitySelector(
+		func(sdkmetric.InstrumentKind) metricdata.Temporality { return temp }))
+	var opts []sdkmetric.Option
+	opts = append(opts, sdkmetric.WithReader(reader))
+	nb := len(target.FBounds)
+	switch kind {
+	case "expo":
+		opts = append(opts, sdkmetric.WithView(sdkmetric.NewView(sdkmetric.Instrument{Name: "donor"},
+			sdkmetric.Stream{Aggregation: sdkmetric.AggregationBase2ExponentialHistogram{MaxSize: 160, MaxScale: 20}})))
+	case "expl":
+		var b []float64
+		switch {
+		case class != "same" || sub == 0:
+			for i := 0; i < nb+3; i++ {
+				b = append(b, float64(i))
+			}
+		case sub == 2:
+			for i := 0; i < nb+20; i++ {
+				b = append(b, float64(i))
+			}
+		}
+		opts = append(opts, sdkmetric.WithView(sdkmetric.NewView(sdkmetric.Instrument{Name: "donor"},
+			sdkmetric.Stream{Aggregation: sdkmetric.AggregationExplicitBucketHistogram{Boundaries: b}})))
+	}
+	mp := sdkmetric.NewMeterProvider(opts...)
+	m := mp.Meter("donor")
+	var rec func(v float64, a int)
+	switch {
+	case kind == "sum" && isInt:
+		c, err := m.Int64Counter("donor")
+		vh.Must(err)
+		rec = func(v float64, a int) { c.Add(ctx, int64(math.Abs(v))+1, donorAttr[a]) }
+	case kind == "sum":
+		c, err := m.Float64Counter("donor")
+		vh.Must(err)
+		rec = func(v float64, a int) { c.Add(ctx, math.Abs(v)+1, donorAttr[a]) }
+	case kind == "gauge" && isInt:
+		c, err := m.Int64Gauge("donor")
+		vh.Must(err)
+		rec = func(v float64, a int) { c.Record(ctx, int64(v), donorAttr[a]) }
+	case kind == "gauge":
+		c, err := m.Float64Gauge("donor")
+		vh.Must(err)
+		rec = func(v float64, a int) { c.Record(ctx, v, donorAttr[a]) }
+	case isInt:
+		c, err := m.Int64Histogram("donor")
+		vh.Must(err)
+		rec = func(v float64, a int) { c.Record(ctx, int64(v), donorAttr[a]) }
+	default:
+		c, err := m.Float64Histogram("donor")
+		vh.Must(err)
+		rec = func(v float64, a int) { c.Record(ctx, v, donorAttr[a]) }
+	}
+	spread := func(sg float64) {
+		// every small integer (explicit donors: one value per bucket) and a wide range (exponential
+		// donors: many buckets at a low scale), two attribute sets = two data points
+		for i := -1; i < nb+22; i++ {
+			rec(sg*(float64(i)+0.5), i&1)
+		}
+		for _, v := range []float64{1, 1.5, 3, 100, 1e3, 1e6} {
+			rec(sg*v, 0)
+			rec(sg*v*7, 1)
+		}
+	}
+	rm := &metricdata.ResourceMetrics{}
+	switch shape {
+	case "same:fewer":
+		rec(1.5, 0)
+	case "same:neg-only":
+		spread(-1)
+	case "same:pos-only":
+		spread(1)
+	case "same:one-each":
+		rec(1.5, 0)
+		rec(-1.5, 0)
+		rec(0, 0)
+	case "same:emptied":
+		spread(1)
+		spread(-1)
+		vh.Must(reader.Collect(ctx, rm))
+		rec(0, 0) // next delta cycle: only the zero bucket, both bucket slices emptied in place
+		rec(0, 1)
+	default:
+		spread(1)
+		spread(-1)
+		rec(0, 0)
+	}
+	vh.Must(reader.Collect(ctx, rm))
+	_ = mp.Shutdown(ctx)
+	return rm, shape
 }
 
 // ---------------------------------------------------------------- scenario context (ranks, sums)
@@ -326,6 +513,7 @@ type EObs struct {
 	Max     int     `json:"max"`
 	Sumq    int64   `json:"sumq"`
 	Sumok   bool    `json:"sumok"`
+	Sumz    bool    `json:"sumz"` // the reported sum is the zero value
 	Shape   string  `json:"shape"`
 }
 
@@ -340,6 +528,7 @@ type HObs struct {
 	Max      int     `json:"max"`
 	Sumq     int64   `json:"sumq"`
 	Sumok    bool    `json:"sumok"`
+	Sumz     bool    `json:"sumz"`
 	Shape    string  `json:"shape"`
 }
 
@@ -400,7 +589,7 @@ func wantTemp(c *Cfg) metricdata.Temporality {
 }
 
 func absentE(shape string) EObs {
-	return EObs{Pos: []int64{}, Neg: []int64{}, Min: -1, Max: -1, Sumok: true, Shape: shape}
+	return EObs{Pos: []int64{}, Neg: []int64{}, Min: -1, Max: -1, Sumok: true, Sumz: true, Shape: shape}
 }
 
 func projectExpoT[N int64 | float64](s *ScenCtx, h metricdata.ExponentialHistogram[N], shape string) EObs {
@@ -410,10 +599,13 @@ func projectExpoT[N int64 | float64](s *ScenCtx, h metricdata.ExponentialHistogr
 	if len(h.DataPoints) != 1 {
 		shape = fmt.Sprintf("%d data points", len(h.DataPoints))
 	}
-	if h.Temporality != wantTemp(s.cfg) {
+	return projectExpoDP(s, h.DataPoints[0], h.Temporality, shape)
+}
+
+func projectExpoDP[N int64 | float64](s *ScenCtx, dp metricdata.ExponentialHistogramDataPoint[N], temp metricdata.Temporality, shape string) EObs {
+	if temp != wantTemp(s.cfg) {
 		shape = "temporality"
 	}
-	dp := h.DataPoints[0]
 	if dp.ZeroThreshold != 0 {
 		shape = "zero threshold"
 	}
@@ -429,6 +621,7 @@ func projectExpoT[N int64 | float64](s *ScenCtx, h metricdata.ExponentialHistogr
 	sf, si := sumParts(dp.Sum)
 	var skipped bool
 	o.Sumq, o.Sumok, skipped = s.sumInfo(sf, si)
+	o.Sumz = sf == 0 && si == 0
 	if skipped {
 		counters.Count("sum_check_skipped_unrepresentable", 1)
 	}
@@ -453,7 +646,7 @@ func projectExpo(s *ScenCtx, agg metricdata.Aggregation, shape string) EObs {
 }
 
 func absentH(shape string) HObs {
-	return HObs{Counts: []int64{}, Min: -1, Max: -1, Sumok: true, Boundsok: true, Shape: shape}
+	return HObs{Counts: []int64{}, Min: -1, Max: -1, Sumok: true, Sumz: true, Boundsok: true, Shape: shape}
 }
 
 func projectHistT[N int64 | float64](s *ScenCtx, h metricdata.Histogram[N], shape string) HObs {
@@ -463,10 +656,13 @@ func projectHistT[N int64 | float64](s *ScenCtx, h metricdata.Histogram[N], shap
 	if len(h.DataPoints) != 1 {
 		shape = fmt.Sprintf("%d data points", len(h.DataPoints))
 	}
-	if h.Temporality != wantTemp(s.cfg) {
+	return projectHistDP(s, h.DataPoints[0], h.Temporality, shape)
+}
+
+func projectHistDP[N int64 | float64](s *ScenCtx, dp metricdata.HistogramDataPoint[N], temp metricdata.Temporality, shape string) HObs {
+	if temp != wantTemp(s.cfg) {
 		shape = "temporality"
 	}
-	dp := h.DataPoints[0]
 	want := append([]float64(nil), s.cfg.FBounds...)
 	sort.Float64s(want)
 	ok := len(want) == len(dp.Bounds)
@@ -478,10 +674,73 @@ func projectHistT[N int64 | float64](s *ScenCtx, h metricdata.Histogram[N], shap
 	sf, si := sumParts(dp.Sum)
 	var skipped bool
 	o.Sumq, o.Sumok, skipped = s.sumInfo(sf, si)
+	o.Sumz = sf == 0 && si == 0
 	if skipped {
 		counters.Count("sum_check_skipped_unrepresentable", 1)
 	}
 	return o
+}
+
+// ---------------------------------------------------------------- fingerprints (a reported point must not change)
+
+func numBits[N int64 | float64](v N) uint64 {
+	switch x := any(v).(type) {
+	case int64:
+		return uint64(x)
+	case float64:
+		return math.Float64bits(x)
+	}
+	panic("unreachable")
+}
+
+func extremaFP[N int64 | float64](e metricdata.Extrema[N]) string {
+	v, ok := e.Value()
+	if !ok {
+		return "-"
+	}
+	return fmt.Sprintf("%x", numBits(v))
+}
+
+func hashFP(parts ...any) string {
+	h := fnv.New64a()
+	fmt.Fprint(h, parts...)
+	return fmt.Sprintf("%016x", h.Sum64())
+}
+
+func fpHistDP[N int64 | float64](dp metricdata.HistogramDataPoint[N]) string {
+	b := make([]uint64, len(dp.Bounds))
+	for i, f := range dp.Bounds {
+		b[i] = math.Float64bits(f)
+	}
+	return hashFP("H", dp.Count, "|", b, "|", dp.BucketCounts, "|", numBits(dp.Sum), "|", extremaFP(dp.Min), "|", extremaFP(dp.Max))
+}
+
+func fpExpoDP[N int64 | float64](dp metricdata.ExponentialHistogramDataPoint[N]) string {
+	return hashFP("E", dp.Count, "|", dp.Scale, "|", dp.ZeroCount, "|", dp.PositiveBucket.Offset, dp.PositiveBucket.Counts, "|",
+		dp.NegativeBucket.Offset, dp.NegativeBucket.Counts, "|", numBits(dp.Sum), "|", extremaFP(dp.Min), "|", extremaFP(dp.Max))
+}
+
+// fpAggregation fingerprints the single data point of a single-stream scenario.
+func fpAggregation(agg metricdata.Aggregation) string {
+	switch h := agg.(type) {
+	case metricdata.Histogram[float64]:
+		if len(h.DataPoints) > 0 {
+			return fpHistDP(h.DataPoints[0])
+		}
+	case metricdata.Histogram[int64]:
+		if len(h.DataPoints) > 0 {
+			return fpHistDP(h.DataPoints[0])
+		}
+	case metricdata.ExponentialHistogram[float64]:
+		if len(h.DataPoints) > 0 {
+			return fpExpoDP(h.DataPoints[0])
+		}
+	case metricdata.ExponentialHistogram[int64]:
+		if len(h.DataPoints) > 0 {
+			return fpExpoDP(h.DataPoints[0])
+		}
+	}
+	return "absent"
 }
 
 func projectHist(s *ScenCtx, agg metricdata.Aggregation, shape string) HObs {
@@ -503,13 +762,14 @@ var counters = vh.NewResult()
 // SOp is one step of a scenario: a measurement (with its abstract value) or a collect.
 type SOp struct {
 	Collect bool
+	D       string // destination class of a collect (HistOutput!ODestClasses)
 	M       Meas
 	A       AVal
 }
 
 // execScenario runs ops on a fresh MeterProvider; every Collect (plus a final observing one if
 // observe is set) yields a Col line. Returns the trace lines and the last observation.
-func execScenario(sc int, c *Cfg, table []ranked, ops []SOp, observe bool) (lines []map[string]any, last any, panicked any) {
+func execScenario(sc int, c *Cfg, table []ranked, ops []SOp, observe string) (lines []map[string]any, last any, panicked any) {
 	defer func() {
 		if r := recover(); r != nil {
 			panicked = r
@@ -525,33 +785,57 @@ func execScenario(sc int, c *Cfg, table []ranked, ops []SOp, observe bool) (line
 			pending = []AVal{}
 		}
 	}
-	col := func() {
+	// destinations that were not handed to a collection again: the points reported into them
+	// must stay what they were (Chk lines; the comparison is Trace_Hist's)
+	type liveRM struct {
+		rm   metricdata.ResourceMetrics
+		k    int
+		dest string
+	}
+	var live []liveRM
+	ncol := 0
+	check := func() {
+		for _, lr := range live {
+			agg, _ := onlyAggregation(&lr.rm)
+			lines = append(lines, map[string]any{"ev": "Chk", "sc": sc, "k": lr.k, "fp": fpAggregation(agg), "dest": lr.dest})
+			counters.Count("alias_checks", 1)
+		}
+		live = live[:0]
+	}
+	col := func(d string) {
 		flush()
-		agg, shape := run.collect()
+		if d == "own" {
+			live = live[:0] // documented re-use: the previous report may change freely
+		}
+		agg, shape, desc := run.collect(d)
+		check() // the previous report, after further measurements and a collection into other memory
 		if c.Kind == "expo" {
 			last = projectExpo(s, agg, shape)
 		} else {
 			last = projectHist(s, agg, shape)
 		}
-		lines = append(lines, map[string]any{"ev": "Col", "sc": sc, "obs": last})
+		ncol++
+		lines = append(lines, map[string]any{"ev": "Col", "sc": sc, "obs": last, "dest": desc, "fp": fpAggregation(agg)})
+		live = append(live, liveRM{run.rm, ncol, desc})
 		if !c.Cum {
 			s.cur = s.cur[:0]
 		}
 	}
 	for _, op := range ops {
 		if op.Collect {
-			col()
+			col(op.D)
 			continue
 		}
 		run.record(op.M)
 		s.cur = append(s.cur, op.M)
 		pending = append(pending, op.A)
 	}
-	if observe {
-		col()
+	if observe != "" {
+		col(observe)
 	} else {
 		flush()
 	}
+	check()
 	return lines, last, nil
 }
 
@@ -581,7 +865,14 @@ type edgeAct struct {
 	Op   string `json:"op"`
 	I    int    `json:"i"`
 	Path string `json:"path"`
+	D    string `json:"d"` // destination class of a Collect
 }
+
+var destClasses = []string{"fresh", "own", "same", "other"}
+
+// observeClass picks the destination class of the observing collect that follows a replayed
+// Record edge (a Collect edge names its own).
+func observeClass(i int) string { return destClasses[(i/2+int(vh.Seed()))%len(destClasses)] }
 
 type ePoint struct {
 	Present bool    `json:"present"`
@@ -625,7 +916,7 @@ func expoEqual(o EObs, p ePoint, quant bool) bool {
 	if quant {
 		return o.Sumq == p.Sumq
 	}
-	return o.Sumok
+	return o.Sumok || (o.Sumz && p.Sumq == 0 && o.Sumq == 0)
 }
 
 // concretizeExpo maps an abstract value of the TLC constants to a float64.
@@ -702,7 +993,7 @@ func replayExpo(g *vh.Graph, c *Cfg, vals []AVal, rep int, tw *vh.TraceWriter, r
 			vh.Must(json.Unmarshal(r, &a))
 			acts = append(acts, a)
 			if a.Op == "Collect" {
-				ops = append(ops, SOp{Collect: true})
+				ops = append(ops, SOp{Collect: true, D: a.D})
 			} else {
 				av := vals[a.I-1]
 				av.P = av.R
@@ -712,8 +1003,8 @@ func replayExpo(g *vh.Graph, c *Cfg, vals []AVal, rep int, tw *vh.TraceWriter, r
 		var want eState
 		vh.Must(json.Unmarshal(e.To, &want))
 		cc := *c
-		cc.ReuseRM = i%2 == 0
-		lines, last, p := execScenario(i, &cc, table, ops, true)
+		cc.Gauge = i%3 == 0
+		lines, last, p := execScenario(i, &cc, table, ops, observeClass(i))
 		res.Executed++
 		res.Count("path_"+acts[len(acts)-1].Path, 1)
 		if p != nil {
@@ -741,7 +1032,7 @@ func concList(ops []SOp) []string {
 	out := []string{}
 	for _, o := range ops {
 		if o.Collect {
-			out = append(out, "collect")
+			out = append(out, "collect:"+o.D)
 		} else {
 			out = append(out, fmt.Sprintf("%g/%d", o.M.F, o.M.I))
 		}
@@ -904,7 +1195,7 @@ func replayExpl(g *vh.Graph, c *Cfg, vals []hVal, rep int, tw *vh.TraceWriter, r
 			vh.Must(json.Unmarshal(r, &a))
 			acts = append(acts, a)
 			if a.Op == "Collect" {
-				ops = append(ops, SOp{Collect: true})
+				ops = append(ops, SOp{Collect: true, D: a.D})
 			} else {
 				v := vals[a.I-1]
 				av := AVal{R: v.R, P: v.R}
@@ -917,8 +1208,8 @@ func replayExpl(g *vh.Graph, c *Cfg, vals []hVal, rep int, tw *vh.TraceWriter, r
 		var want hState
 		vh.Must(json.Unmarshal(e.To, &want))
 		cc := *c
-		cc.ReuseRM = i%2 == 0
-		lines, last, p := execScenario(i, &cc, dedup, ops, true)
+		cc.Gauge = i%3 == 0
+		lines, last, p := execScenario(i, &cc, dedup, ops, observeClass(i))
 		res.Executed++
 		if p != nil {
 			res.AddMismatch(vh.Mismatch{Kind: "panic", Case: map[string]any{"sc": i}, Path: acts, Detail: fmt.Sprint(p)})
@@ -990,6 +1281,8 @@ func randFinite(r *rand.Rand) float64 {
 }
 
 func pick[T any](r *rand.Rand, xs ...T) T { return xs[r.Intn(len(xs))] }
+
+func randDest(r *rand.Rand) string { return pick(r, "fresh", "own", "own", "same", "same", "other") }
 
 func sign(r *rand.Rand, negProb int) float64 {
 	if r.Intn(100) < negProb {
@@ -1127,7 +1420,10 @@ func genIntValues(r *rand.Rand, class string, n int, c *Cfg) []Meas {
 }
 
 func randomExpo(r *rand.Rand, sc int, tw *vh.TraceWriter, res *vh.Result) {
-	c := &Cfg{Kind: "expo", Cum: r.Intn(2) == 0, Bounds: []int{}, ReuseRM: r.Intn(2) == 0}
+	c := &Cfg{Kind: "expo", Cum: r.Intn(2) == 0, Bounds: []int{}}
+	c.NoMinMax = r.Intn(8) == 0
+	c.NoSum = r.Intn(8) == 0
+	c.Gauge = r.Intn(2) == 0
 	c.MaxSize = pick(r, 1, 1, 2, 2, 3, 4, 5, 8, 16, 20, 160)
 	switch r.Intn(20) {
 	case 0:
@@ -1171,7 +1467,7 @@ func randomExpo(r *rand.Rand, sc int, tw *vh.TraceWriter, res *vh.Result) {
 			ops = append(ops, SOp{M: m})
 		}
 		all = append(all, ms...)
-		ops = append(ops, SOp{Collect: true})
+		ops = append(ops, SOp{Collect: true, D: randDest(r)})
 	}
 	// ranks (exact values) and abstract values
 	xs := make([]*big.Float, len(all))
@@ -1217,7 +1513,7 @@ func randomExpo(r *rand.Rand, sc int, tw *vh.TraceWriter, res *vh.Result) {
 		}
 	}
 	before := handled.n
-	lines, _, p := execScenario(sc, c, table, ops, false)
+	lines, _, p := execScenario(sc, c, table, ops, "")
 	res.Executed++
 	res.Count("expo_scenarios", 1)
 	res.Count("expo_class_"+class, 1)
@@ -1239,6 +1535,12 @@ func randomExpo(r *rand.Rand, sc int, tw *vh.TraceWriter, res *vh.Result) {
 		}
 		if l["ev"] == "Col" {
 			o := l["obs"].(EObs)
+			if c.NoMinMax && o.Present {
+				res.Count("expo_points_nominmax", 1)
+			}
+			if c.NoSum && o.Present {
+				res.Count("expo_points_nosum", 1)
+			}
 			if o.Present && o.Scale < c.MaxScale {
 				res.Count("expo_points_downscaled", 1)
 			}
@@ -1254,7 +1556,10 @@ func randomExpo(r *rand.Rand, sc int, tw *vh.TraceWriter, res *vh.Result) {
 }
 
 func randomExpl(r *rand.Rand, sc int, tw *vh.TraceWriter, res *vh.Result) {
-	c := &Cfg{Kind: "expl", Cum: r.Intn(2) == 0, ReuseRM: r.Intn(2) == 0, MaxSize: 1, MaxScale: 0}
+	c := &Cfg{Kind: "expl", Cum: r.Intn(2) == 0, MaxSize: 1, MaxScale: 0}
+	c.NoMinMax = r.Intn(8) == 0
+	c.NoSum = r.Intn(8) == 0
+	c.Gauge = r.Intn(2) == 0
 	c.IsInt = r.Intn(4) == 0
 	class := pick(r, "wide", "grid", "neighbours", "neighbours", "quant")
 	nb := r.Intn(pick(r, 1, 4, 9, 16))
@@ -1382,7 +1687,7 @@ func randomExpl(r *rand.Rand, sc int, tw *vh.TraceWriter, res *vh.Result) {
 			ops = append(ops, SOp{M: m})
 			all = append(all, m)
 		}
-		ops = append(ops, SOp{Collect: true})
+		ops = append(ops, SOp{Collect: true, D: randDest(r)})
 	}
 	var xs []*big.Float
 	for _, b := range bounds {
@@ -1430,7 +1735,7 @@ func randomExpl(r *rand.Rand, sc int, tw *vh.TraceWriter, res *vh.Result) {
 		}
 		ops[i].A = a
 	}
-	lines, _, p := execScenario(sc, c, table, ops, false)
+	lines, _, p := execScenario(sc, c, table, ops, "")
 	res.Executed++
 	res.Count("expl_scenarios", 1)
 	res.Count("expl_class_"+class, 1)
@@ -1486,7 +1791,7 @@ func random(args []string) {
 func probe() {
 	c := &Cfg{Kind: "expo", MaxSize: 1, MaxScale: 20, Cum: true, Bounds: []int{}}
 	ops := []SOp{{M: Meas{F: 0.5}}, {M: Meas{F: 4}}}
-	_, last, p := execScenario(0, c, buildRanks([]*big.Float{big.NewFloat(0.5), big.NewFloat(4)}), ops, true)
+	_, last, p := execScenario(0, c, buildRanks([]*big.Float{big.NewFloat(0.5), big.NewFloat(4)}), ops, "fresh")
 	o, _ := last.(EObs)
 	var sum int64
 	for _, x := range append(append([]int64{}, o.Pos...), o.Neg...) {
@@ -1510,6 +1815,8 @@ func main() {
 		replay(os.Args[2:])
 	case "random":
 		random(os.Args[2:])
+	case "worlds":
+		worlds(os.Args[2:])
 	default:
 		os.Exit(3)
 	}
